@@ -1,7 +1,7 @@
 (* The KDF models applied to the committed constants and tables: the functions the extracted driver exposes.
    Primitives stay parameters (the driver supplies them over a pipe to the Go harness). *)
 Require Import GC.Base.Bytes GC.Kdf.KdfBase GC.Kdf.Md5Crypt GC.Kdf.Sha2Crypt GC.Kdf.Sha1Crypt GC.Kdf.SunMd5 GC.Kdf.NtHash
-               GC.Kdf.Bcrypt GC.Kdf.DesCrypt GC.Kdf.DesTables GC.Schemes.Consts.
+               GC.Kdf.Bcrypt GC.Kdf.DesCrypt GC.Kdf.DesTables GC.Kdf.Argon2 GC.Schemes.Consts.
 
 Definition x_md5crypt (H : bytes -> bytes) (pw salt : bytes) := Md5Crypt.Encrypt H m_md5_permFinal pw salt m_md5_Prefix.
 Definition x_md5crypt_spec (H : bytes -> bytes) (pw salt : bytes) := Md5Crypt.spec_Encrypt H m_md5_permFinal pw salt m_md5_Prefix.
@@ -21,3 +21,9 @@ Definition x_des (pw salt : bytes) :=
   DesCrypt.des_derive m_des_ie3264 m_des_cf6464 m_des_spe m_des_pcxRot m_des_ksMask m_hashutil_hash_decode pw salt.
 Definition x_desext (pw salt : bytes) (r : Z) :=
   DesCrypt.desext_derive m_des_ie3264 m_des_cf6464 m_des_spe m_des_pcxRot m_des_ksMask m_hashutil_hash_decode pw salt r.
+
+Definition x_argon2 (B2 : Z -> bytes -> bytes) (mode version : Z) (pw salt : bytes) (time memory threads keyLen : Z) :=
+  Argon2.Key B2 mode version pw salt time memory threads keyLen.
+Definition x_argon2_block (out in1 in2 : list Z) (xor : bool) := Argon2.process_block out in1 in2 xor.
+Definition x_argon2_index (rand lanes segments threads n slice lane index : Z) :=
+  Argon2.indexAlpha rand lanes segments threads n slice lane index.
